@@ -84,6 +84,9 @@ impl Engine for MigrEngine {
         knobs.insert("source".into(), c.below(3) as i64);
         knobs.insert("allow".into(), c.chance(1, 2) as i64);
         knobs.insert("existing_dest".into(), c.chance(1, 8) as i64);
+        // own tape: somebody creates the destination after this many virtual microseconds
+        let mut it = Tape::fresh(mix(seed, 0x1A7D));
+        knobs.insert("intruder_after_us".into(), if it.chance(1, 5) { it.below(30_000) as i64 } else { -1 });
         knobs.insert("dest_faults".into(), c.chance(1, 3) as i64);
         knobs.insert("synth_records".into(), if c.chance(1, 6) { 300 } else { 1 + c.below(12) as i64 });
         knobs.insert("synth_dups".into(), c.below(4) as i64);
@@ -156,10 +159,55 @@ impl Engine for MigrEngine {
             }));
         }
 
-        // ---- 3. migrate
+        // ---- 3. migrate; in some runs somebody else creates the destination while the copy is
+        // under way (the simulated devices of the copy are scheduling points): a destination
+        // that exists by the time of publication is "an existing destination" all the same
+        let intruder_bytes = b"created by somebody else while the migration was running".to_vec();
+        let intrude_after_us = sc.knob("intruder_after_us", -1);
+        let intruder = (intrude_after_us >= 0 && !existing).then(|| {
+            let (sim2, path2, bytes2) = (Arc::clone(sim), dst_path.clone(), intruder_bytes.clone());
+            feoxdb::verif::thread::name_next_spawn("intruder");
+            feoxdb::verif::thread::spawn(move || {
+                sim2.sleep(std::time::Duration::from_micros(intrude_after_us as u64));
+                use std::io::Write;
+                match std::fs::OpenOptions::new().write(true).create_new(true).open(&path2) {
+                    Ok(mut f) => {
+                        let _ = f.write_all(&bytes2);
+                        true
+                    }
+                    Err(_) => false,
+                }
+            })
+        });
         sim.op_begin("migrate");
         let result = migrate(MigrationOptions::new(&src_path, &dst_path).allow_ambiguous_legacy_recovery(allow));
         sim.op_end();
+        let intruded = intruder.map(|h| h.join().unwrap_or(false)).unwrap_or(false);
+        if intrude_after_us >= 0 {
+            report.count(if intruded { "intruder_created_destination" } else { "intruder_came_too_late" }, 1);
+        }
+        if intruded {
+            // the intruder's file is there: it must survive, and the migration cannot have succeeded
+            let now_there = std::fs::read(&dst_path).ok();
+            if now_there.as_deref() != Some(&intruder_bytes[..]) {
+                report.fail(
+                    "existing-destination-overwritten",
+                    format!(
+                        "a file created at the destination path while migrate() was running was replaced (migrate() returned {}): {} bytes there now",
+                        if result.is_ok() { "Ok" } else { "an error" },
+                        now_there.map(|b| b.len()).unwrap_or(0)
+                    ),
+                );
+            } else if result.is_ok() {
+                report.fail("existing-destination-overwritten", "migrate() returned Ok although the destination path holds somebody else's file".into());
+            }
+            sim.set_default_devices(false);
+            sim.set_default_plan(None);
+            report.ops += 1;
+            report.nontrivial = true;
+            cleanup(sim, &dir);
+            return report;
+        }
         sim.set_default_devices(false);
         sim.set_default_plan(None);
         let autos = sim.auto_devices();
